@@ -277,7 +277,7 @@ pub fn gen(tier: Tier, rng: &mut Rng64, out: &mut Out) {
         run("C12.parse", &[s(*rng.pick(&["u16", "u32"])), hex(st.as_bytes())], out);
     }
     // --- every function over n <= 3 variables; exhaustive chunkings for the short ones
-    let small = Budget { exhaustive_cap: if thorough { 6000 } else { 300 }, random_per: if thorough { 12 } else { 4 } };
+    let small = Budget { exhaustive_cap: if thorough { 30000 } else { 300 }, random_per: if thorough { 12 } else { 4 } };
     run("C12.mem", &[s("|")], out);
     for n in 0..=3usize {
         let count = 1u64 << (1u64 << n);
@@ -289,14 +289,14 @@ pub fn gen(tier: Tier, rng: &mut Rng64, out: &mut Out) {
     }
     // --- random functions, non-canonical variants
     let rnd = Budget { exhaustive_cap: 0, random_per: if thorough { 6 } else { 2 } };
-    for _ in 0..(if thorough { 3000 } else { 150 }) {
+    for _ in 0..(if thorough { 10000 } else { 150 }) {
         let n = 4 + rng.below(5) as usize;
         let mut b = random_bdd(rng, n);
         if rng.chance(1, 3) { b = noncanon_variant(rng, &b); }
         cases_for(&fmt_bdd(&b), rng, out, &rnd, false);
     }
     // --- few-node diagrams with 16-bit variables (up to 65 534) and level gaps
-    for _ in 0..(if thorough { 2000 } else { 120 }) {
+    for _ in 0..(if thorough { 6000 } else { 120 }) {
         let nv: u64 = *rng.pick(&[65535u64, 65534, 65535, 40000, 300, 257, 256]);
         let depth = 1 + rng.below(5);
         let mut vars: Vec<u64> = (0..depth).map(|_| match rng.below(4) { 0 => nv - 1 - rng.below(3.min(nv - 1)), 1 => rng.below(nv), 2 => 255 + rng.below(3), _ => rng.below(1000.min(nv)) }).collect();
@@ -310,7 +310,7 @@ pub fn gen(tier: Tier, rng: &mut Rng64, out: &mut Out) {
         cases_for(&fmt_triples64(&t), rng, out, &rnd, false);
     }
     // --- arbitrary node arrays (values only the text reader produces): full-range fields
-    for _ in 0..(if thorough { 2000 } else { 120 }) {
+    for _ in 0..(if thorough { 6000 } else { 120 }) {
         let len = 1 + rng.below(4);
         let big = |rng: &mut Rng64, max: u64| -> u64 { match rng.below(4) { 0 => max, 1 => max - rng.below(3), 2 => rng.below(max + 1), _ => rng.below(300) } };
         let t: Vec<(u64, u64, u64)> = (0..len).map(|_| (big(rng, 65535), big(rng, 4294967295), big(rng, 4294967295))).collect();
